@@ -130,6 +130,19 @@ func (a *Act) canInline(f *ssa.Function) bool {
 	if con := a.eng.contracts[fnKey(f)]; con != nil && con.Inline {
 		return true
 	}
+	// a callee with loops is inlined when the verified function's contract supplies invariants for them
+	if t := a.top; hasLoop(f) {
+		if t == nil {
+			t = a
+		}
+		if t.con != nil && f.Pkg != nil && strings.HasPrefix(f.Pkg.Pkg.Path(), a.eng.modPath) {
+			for _, c := range t.con.Invs {
+				if c.LoopFn == f.Name() {
+					return true
+				}
+			}
+		}
+	}
 	if f.Parent() != nil {
 		// closures defined in verified code: inline when small and loop-free
 		return len(f.Blocks) <= 24 && !hasLoop(f)
@@ -728,6 +741,11 @@ func (a *Act) doPanic(st *State, x *ssa.Panic) {
 	}
 	goal := "false"
 	desc := "explicit panic unreachable"
+	if top.con != nil && top.con.Opts["explicit-panics"] == "allowed" {
+		// the contract declares this function's explicit panic statements out of scope (recorded as an assumption)
+		vc.noteAssumed("explicit panic statements of " + top.prefix + " are not excluded (option explicit-panics allowed)")
+		return
+	}
 	if top.con != nil && len(top.con.PanicsIf) > 0 && !a.inlined {
 		env := a.specEnv(a.entry)
 		env.old = a.entry
